@@ -196,6 +196,30 @@ Example C14_example_kernels :
   k_recv_cycle_cond (k_recv_cycle_diff 0 65535) = true /\ k_recv_cycle_cond (k_recv_cycle_diff 4096 8191) = false.
 Proof. vm_compute. repeat split. Qed.
 
+(* report(): Model.report IS the report written with the kernels translated from the Go source on this run: the
+   "nothing to report" test, the "received or lost since the last report" test, fraction lost
+   uint8((min(lostSinceReport, 0xFFFFFF) * 256) / receivedAndLostSinceReport), the extended highest sequence number
+   uint32(cycles)<<16 | uint32(last) (= cycles * 65536 + last), total lost uint32(min(lost, 0xFFFFFF)); the builtin
+   min is not translated - its arguments (which counter, which literal) are. *)
+Theorem C14_receiver_report_kernels_are_the_code : forall s,
+  u16 (cycles s) -> u16 (last s) -> 0 <= lostS s -> u64 (ralS s) ->
+  report s = report_k s /\
+  k_recv_rep_ext (cycles s) (last s) = cycles s * 65536 + last s.
+Proof.
+  intros s Hc Hl Hls Hr. split; [apply report_kernels_are_the_code; assumption|].
+  apply (bridge_rep_ext _ _ Hc Hl).
+Qed.
+Print Assumptions C14_receiver_report_kernels_are_the_code.
+
+(* 3 lost of 4 -> 192/256; lost = received-and-lost (2^24-1 of 2^24-1) -> 256, which the uint8 conversion wraps to 0;
+   2^24-1 of 2^24 -> 255; no packet since the last report: the division is guarded; cycles 1, last 2 -> 65538 *)
+Example C14_example_report_kernels :
+  k_recv_rep_fraction 3 4 = Some 192 /\ k_recv_rep_fraction k_recv_rep_clamp_f 16777215 = Some 0 /\
+  k_recv_rep_fraction k_recv_rep_clamp_f 16777216 = Some 255 /\ k_recv_rep_fraction 1 0 = None /\
+  k_recv_rep_ext 1 2 = 65538 /\ k_recv_rep_ext 65535 65535 = 4294967295 /\ k_recv_rep_total k_recv_rep_clamp_t = 16777215 /\
+  k_recv_rep_skip true 90000 = false /\ k_recv_rep_skip true 0 = true /\ k_recv_rep_skip false 90000 = true.
+Proof. vm_compute. repeat split. Qed.
+
 (* F12 on the model: B = 4, arrivals 1 3 4 6 5 7..12: 5 is missing from the deliveries, lost = 2 (numbers 2 and 5) *)
 Example C14_example_f12 : exists s' evs, run_ops (init true 4) (arrivals f12_seqs) = (s', evs) /\
   Forall (fun o => o = None) (buf s') /\ delivered_seqs evs = [1; 3; 4; 6; 7; 8; 9; 10; 11; 12] /\
